@@ -72,11 +72,16 @@ class DumperBase(DataStreamProcessor):
         DumperBase.inc_attr(self.datapackage.descriptor, self.datapackage_rowcount, counter)
         for descriptor in self.datapackage.descriptor['resources']:
             if descriptor['name'] == resource.res.descriptor['name']:
-                DumperBase.inc_attr(descriptor, self.resource_rowcount, counter)
+                DumperBase.set_attr(descriptor, self.resource_rowcount, counter)
         self.datapackage.commit()
 
     def process_resources(self, resources):
         self.initialize()
+
+        # Counters describe this dump only (the incoming descriptor may carry those of an earlier one)
+        for prop in (self.datapackage_rowcount, self.datapackage_bytes):
+            if DumperBase.get_attr(self.datapackage.descriptor, prop) is not None:
+                DumperBase.set_attr(self.datapackage.descriptor, prop, 0)
 
         resource: ResourceWrapper = None
         for resource in resources:
